@@ -340,6 +340,34 @@ fn parse_rev(s: &str) -> Option<Ev> {
     Some(Ev::Deliver(Packet_::Data(n as u16, parse_content(payload)?), 0))
 }
 
+#[repr(C)]
+struct RLimit {
+    cur: u64,
+    max: u64,
+}
+extern "C" {
+    fn getrlimit(resource: i32, rlim: *mut RLimit) -> i32;
+    fn setrlimit(resource: i32, rlim: *const RLimit) -> i32;
+    fn signal(signum: i32, handler: usize) -> usize;
+}
+const RLIMIT_FSIZE: i32 = 1;
+const SIGXFSZ: i32 = 25;
+const SIG_IGN: usize = 1;
+const RLIM_INFINITY: u64 = u64::MAX;
+
+/// sets the soft file-size limit of the process (None = unlimited) and returns the previous one
+fn fsize_limit(new: Option<u64>) -> Option<u64> {
+    unsafe {
+        signal(SIGXFSZ, SIG_IGN);
+        let mut r = RLimit { cur: 0, max: 0 };
+        getrlimit(RLIMIT_FSIZE, &mut r);
+        let old = if r.cur == RLIM_INFINITY { None } else { Some(r.cur) };
+        let want = RLimit { cur: new.unwrap_or(RLIM_INFINITY).min(r.max), max: r.max };
+        setrlimit(RLIMIT_FSIZE, &want);
+        old
+    }
+}
+
 pub fn rcv_line(toks: &[&str]) -> String {
     if toks.len() < 6 {
         return "bad-op".into();
@@ -348,7 +376,10 @@ pub fn rcv_line(toks: &[&str]) -> String {
         return "bad-op".into();
     };
     let clean = toks[4] == "1";
-    let full = toks[5] == "full";
+    // `quota:<n>`: the process may not grow any file beyond n bytes while the worker runs (RLIMIT_FSIZE, SIGXFSZ ignored): the write that
+    // crosses the limit is cut, the next one fails with EFBIG - a write error in the middle of an upload
+    let quota: Option<u64> = toks[5].strip_prefix("quota:").and_then(|x| x.parse().ok());
+    let full = toks[5] == "full" || quota.is_some();
     let mut script = VecDeque::new();
     for e in &toks[6..] {
         let Some(ev) = parse_rev(e) else { return "bad-op".into() };
@@ -375,7 +406,15 @@ pub fn rcv_line(toks: &[&str]) -> String {
     }));
     let sock = Scripted { sh: sh.clone() };
     let worker = Worker::new(Box::new(sock), path.clone(), clean, b, Duration::from_secs(5), w, rep);
+    let restore = quota.map(|q| {
+        // the capture files of stdout/stderr are subject to the limit too: start them empty (one short line is printed per transfer)
+        crate::capture::truncate();
+        fsize_limit(Some(q))
+    });
     let status = run_and_classify(sh.clone(), move || worker.receive().unwrap());
+    if let Some(old) = restore {
+        fsize_limit(old);
+    }
     let fin = if status == "running" || status == "panic" {
         "open".to_string()
     } else if nospace {
